@@ -29,9 +29,9 @@ var bodyTemplates = [][]string{
 	// 6 HTML blocks
 	{"<pre>\n{w}\n\n{w}</pre>", "<script>\n{w}\n</script> {w}", "<!-- {w}\n\n{w} -->", "<?{w}\n?>", "<!DOCTYPE {w}>", "<![CDATA[\n{w}\n]]>", "<div>\n{w}", "</div>\n*{w}*", "<a href=\"{w}\">\n{w}", "<{w} />\n{w}", "<style\n{w}", "<textarea>{w}</textarea>", "<!-->", "<!--->\n{w}", "<DIV class=\"{w}\">", "<table>\n<tr>\n\n<td>", "<p>{w}", "<b>\n{w}"},
 	// 7 reference definitions
-	{"[{w}]: /url", "[foo]: /u \"t\"", "[foo]:\n/url\n'title'", "[{w}]: /url 'ti\ntle'", "[foo\nbar]: /u", "[foo]: <u v> (t)", "[foo]: /u\n[bar]: /v\n{w}", "[foo]: /u \"t\" {w}", "[foo]: /u\n\"t\" {w}", "[foo]: /u\\", "[foo]: /u\\\n{w}", "[foo]: /u\n-", "[ foo ]:\n  /u\n  (t\nt)", "[foo]: /url\n[foo]: /other", "[FOO bar]: /u"},
+	{"[{w}]: /url", "[foo]: /u \"t\"", "[foo]:\n/url\n'title'", "[{w}]: /url 'ti\ntle'", "[foo\nbar]: /u", "[foo]: <u v> (t)", "[foo]: /u\n[bar]: /v\n{w}", "[foo]: /u \"t\" {w}", "[foo]: /u\n\"t\" {w}", "[foo]: /u\\", "[foo]: /u\\\n{w}", "[foo]: /u\n-", "[ foo ]:\n  /u\n  (t\nt)", "[foo]: /url\n[foo]: /other", "[FOO bar]: /u", "[foo]: <b\\\nc>", "[foo]: <b\\>\n{w}", "[foo]: /u \"t\\\n\"", "[foo\\\nbar]: /u", "[foo]: /u\n \"t\"\n [bar]: /v"},
 	// 8 inline links over lines
-	{"[{w}\n{w}](/url\n\"ti\ntle\")", "[{w}](<b\nc>)", "[{w}](/u\\", "[{w}](/u\n'{w}'\n)", "[{w}]( /u )", "[{w}](/u \"t\"\n{w})", "[a [b](c) d](e)", "[{w}](\n/u\n)", "[{w}](/u (t\nt))", "[{w}](<>)", "[{w}]()", "[{w}](/u\\\n)", "![{w}\n{w}](/u \"t\")", "![*{w}*](y \"z\")", "![[{w}](a)](b)", "![](x)", "![&amp;{w}](x)", "[![{w}](a)](b)", "[{w}](/a(b)c)", "[{w}](/a\\(b)"},
+	{"[{w}\n{w}](/url\n\"ti\ntle\")", "[{w}](<b\nc>)", "[{w}](/u\\", "[{w}](/u\n'{w}'\n)", "[{w}]( /u )", "[{w}](/u \"t\"\n{w})", "[a [b](c) d](e)", "[{w}](\n/u\n)", "[{w}](/u (t\nt))", "[{w}](<>)", "[{w}]()", "[{w}](/u\\\n)", "![{w}\n{w}](/u \"t\")", "![*{w}*](y \"z\")", "![[{w}](a)](b)", "![](x)", "![&amp;{w}](x)", "[![{w}](a)](b)", "[{w}](/a(b)c)", "[{w}](/a\\(b)", "[{w}](<b\\\nc>)", "[{w}](<b\nc>)", "[{w}](<b c\\>)", "[{w}](</u> \"t\\\nu\")", "[{w}](/u '\\\n')", "[{w}](/u (a\\\nb))", "![{w}](<\\\n>)"},
 	// 9 reference links
 	{"[{w}][foo\nbar]", "[foo\nbar][]", "[foo]", "[{w}][foo]", "[foo][]", "![foo]", "![{w}][foo]", "[{w}][FOO  bar]", "[foo] {w}\n[foo\nbar]", "[[foo]]", "[{w} [foo]][bar]", "[foo]: /u\n\n[foo]", "[{w}][foo\n]", "[foo\\]]"},
 	// 10 code spans
@@ -46,6 +46,8 @@ var bodyTemplates = [][]string{
 	{"\\é", "&amp;\n&#x41;", "{w}\\\\", "\\*{w}\\*", "&#0; &#xD800; &#x110000;", "&copy;{w}&nosuch;", "\\{w}", "{w}\\\t{w}", "&#xGG; &#x4a;", "\\&amp;", "&amp\n;"},
 	// 15 autolinks
 	{"<http://a.b/c>", "<{w}@{w}.com>", "<a+b:c d>", "<http://a.b/c\n>", "<mailto:{w}>", "<http://a.b/é%GG>", "<a:>", "<ab:<>"},
+	// 15b constructs ending in a backslash (at the end of a line or of the input)
+	{"``` {w}\\", "~~~ \\\n{w}\n~~~", "``` {w} \\\\", "[foo]: /u \"t\\", "[foo]: /u\\\n\"t\"", "[{w}](/u \"t\\", "[{w}](/u\\", "[{w}\\](/u)", "`{w}\\", "<a href=\"\\", "# {w} \\", "{w} <b\\", "[foo\\]: /u", "![{w}\\", "<http://a.b/\\>", "&amp;\\", "*{w}\\*", "    {w}\\", "> {w}\\", "- {w}\\\n- \\"},
 	// 16 nested lists (own markers)
 	{"- {w}\n  - {w}\n    - {w}", "1. {w}\n\n   {w}", "- {w}\n\n- {w}", "* {w}\n* {w}\n\n  {w}", "- {w}\n- \n- {w}", "1) {w}\n2) {w}\n3. {w}", "-\n  {w}", "- \n\n  {w}", "- {w}\n\n\n  {w}", "10. {w}\n    {w}", "- # {w}\n  {w}", "- # <b>\n  {w}", "- ```\n  {w}\n  ```\n- {w}", "1. 1.     * {w}\n\n      * * *\n2. {w}", "- <div>\n\n  {w}\n- {w}", "-   {w}\n\n    {w}", "-     {w}\n\n  {w}", "- {w}\n > {w}", "+ {w}\n- {w}"},
 	// 17 quotes (own markers)
